@@ -31,7 +31,7 @@ type RefFrame struct {
 	Seq      uint64
 	Closing  uint8
 	Payload  []byte
-	ExtraLen uint8 // as found on the wire
+	ExtraLen uint8  // as found on the wire
 	Padding  []byte // decoded padding bytes (Decode only)
 }
 
